@@ -222,7 +222,7 @@ def r2(ctx):
             continue
         if not all(t in dom.get(r, ()) for r in rets):
             continue
-        b = N.b(t.stmt.test)
+        b = N.b(inline(t.stmt.test, {k_: v_ for k_, v_ in env.items() if k_ not in (S, ids)}))
         if b == want_zero:
             found["zero"] = True
         if b == want_nan:
